@@ -114,3 +114,68 @@ def c03_typed(world):
                 if not conforms(world, f, v):
                     out.append(('ill-typed', f'o{xi}.f{f.fid} holds {world.tok(v)}', {}))
     return out
+
+
+# ---- C07 ---------------------------------------------------------------------------------------------------
+
+def snapshot(world):
+    """every feature value of every object (by identity), container, for before/after comparisons"""
+    snap = []
+    for xi, x in enumerate(world.objs):
+        feats = {}
+        for f in world.mm.feats_of(world.classes.index(x.eClass)):
+            feats[f.fid] = list(world.slot(x, f))
+        snap.append((feats, x.eContainer(), x.eContainmentFeature(), x._eresource))
+    return snap
+
+
+def subtree(world, snap, i):
+    """containment subtree below object i according to a snapshot (independent of eAllContents)"""
+    out, todo = [], [i]
+    while todo:
+        k = todo.pop()
+        for fid, vals in snap[k][0].items():
+            f = world.mm.feats[fid]
+            if f.ref and f.cont:
+                for v in vals:
+                    j = world.oid(v)
+                    if j is not None and j not in out and j != i:
+                        out.append(j)
+                        todo.append(j)
+    return out
+
+
+def c07_delete(world, snap, i, recursive):
+    """after objs[i].delete(recursive): no dangling reference, deleted objects clean, survivors untouched"""
+    out = []
+    D = [i] + (subtree(world, snap, i) if recursive else [])
+    Dobj = [world.objs[k] for k in D]
+    isD = lambda v: any(v is d for d in Dobj)
+    after = snapshot(world)
+    for xi in range(len(world.objs)):
+        feats, cont, cf, res = after[xi]
+        if xi in D:
+            for fid, vals in feats.items():
+                if world.mm.feats[fid].ref and vals:
+                    out.append(('deleted-holds', f'deleted o{xi}.f{fid} still holds {[world.tok(v) for v in vals]}',
+                                {'list_like': world.mm.feats[fid].many and not world.mm.feats[fid].unique}))
+            if cont is not None:
+                out.append(('deleted-has-container', f'deleted o{xi} still has container o{world.oid(cont)}', {}))
+            continue
+        for fid, vals in feats.items():
+            f = world.mm.feats[fid]
+            bad = [v for v in vals if f.ref and isD(v)]
+            if bad:
+                out.append(('dangling', f'o{xi}.f{fid} still holds deleted {[world.tok(v) for v in bad]}',
+                            {'list_like': f.many and not f.unique, 'opposite': f.opp is not None}))
+                continue
+            want = [v for v in snap[xi][0][fid] if not (f.ref and isD(v))]
+            if len(want) != len(vals) or any(a is not b and a != b for a, b in zip(want, vals)):
+                out.append(('survivor-changed', f'o{xi}.f{fid} was {[world.tok(v) for v in snap[xi][0][fid]]} '
+                            f'is {[world.tok(v) for v in vals]}', {}))
+        if res is not snap[xi][3]:
+            out.append(('survivor-resource', f'o{xi} resource membership changed', {}))
+        old_c = snap[xi][1]
+        if old_c is not None and not isD(old_c) and cont is not old_c:
+            out.append(('survivor-container', f'o{xi} lost its container', {}))
+    return out
